@@ -77,8 +77,8 @@ def gen_cases(d, by_name, rng, tier, has_builder=False):
     W = d['base']
     scen = []
     quick = tier == 'quick'
-    exhaustive_get = W <= (5 if quick else 10)
-    exhaustive_set = W <= (3 if quick else 6)
+    exhaustive_get = W <= (5 if quick else 8)
+    exhaustive_set = W <= (3 if quick else 5)
     for f in d['fields']:
         is_arr = f.get('count') is not None
         idxs = indices_for(rng, f)
@@ -92,7 +92,7 @@ def gen_cases(d, by_name, rng, tier, has_builder=False):
             vals = values_for(rng, f, by_name)
             if exhaustive_set and not (f['ty']['k'] == 'custom'):
                 vals = list(range(1 << ty_width(f['ty'])))
-            raws = list(range(1 << W)) if exhaustive_set else raws_for(rng, W, f, k_random=1)[:(6 if quick else 100)]
+            raws = list(range(1 << W)) if exhaustive_set else raws_for(rng, W, f, k_random=1)[:(6 if quick else 24)]
             for r in raws:
                 ops = []
                 for i in idxs:
@@ -126,7 +126,7 @@ def gen_cases(d, by_name, rng, tier, has_builder=False):
             ops.append(('R',))
             scen.append((rng.getrandbits(W), ops))
     if writable:
-        nh = 3 if quick else 12
+        nh = 3 if quick else 6
         for _ in range(nh):
             L = rng.choice([4, 16, 64]) if quick else rng.choice([16, 64, 256, 1000])
             ops = []
